@@ -922,6 +922,12 @@ def _merged_is_applied_decisions(ctx, rule):
             recv = isinstance(n.func, ast.Attribute) and isinstance(n.func.value, ast.Name) and n.func.value.id in (mvar, dvar)
             if recv and n.func.attr not in ('get', 'keys', 'items', 'values', 'copy'):
                 bad.append((n, 'method %s.%s(...)' % (n.func.value.id, n.func.attr)))
+            if isinstance(n.func, ast.Attribute) and not recv and n.func.attr in ('pop', 'update', 'clear', 'append', 'setdefault', 'remove', 'extend', 'insert', 'popitem', 'sort', '__setitem__', '__delitem__'):
+                root = n.func.value
+                while isinstance(root, (ast.Attribute, ast.Subscript)):
+                    root = root.value
+                if isinstance(root, ast.Name) and root.id in (mvar, dvar):
+                    bad.append((n, 'mutator %s(...) on a part of %s' % (n.func.attr, root.id)))
             if args:
                 ts = cg.resolve(n.func, fn)
                 pure = any(t[0] == 'func' and t[1].startswith('nbdime.prettyprint:') for t in ts) or (dotted(n.func) or '').startswith(('nbdime.log.', 'logger.', 'logging.', 'len', 'any', 'all'))
@@ -1436,7 +1442,7 @@ def lifted_diffs_nest_outermost_first(ctx, rule):
     def order_of(seq):
         if isinstance(seq, ast.Call) and dotted(seq.func) == 'reversed':
             return 'reversed'
-        if isinstance(seq, ast.Subscript) and isinstance(seq.slice, ast.Slice) and seq.slice.step is not None and const_val(seq.slice.step) == -1:
+        if isinstance(seq, ast.Subscript) and isinstance(seq.slice, ast.Slice) and seq.slice.step is not None and ast.unparse(seq.slice.step).replace(' ', '') == '-1':
             return 'reversed'
         if isinstance(seq, (ast.Subscript, ast.Name, ast.Attribute)):
             return 'forward'
@@ -1513,3 +1519,157 @@ def no_remove_of_required_field(ctx, rule):
                  'fails validation, and no conflict is reported' % path, tr)
     if not k:
         ctx.inst(rule, 'nbdime.merging.notebooks:notebook_merge_strategies', 'no path is mapped to a removing strategy', True, 'nothing to check', None)
+
+
+@extra('C14', 'R14.15', 'installing the ignore options keeps no memo of its own (C12 R12.1: nothing on the option/diff path writes module-level state): whether an ignore is in force is '
+       'read from the differ table, which other calls rewrite, never from a record of what was requested earlier', 8)
+def c14_no_installation_memo(ctx, rule):
+    from ..report import run_sub
+    from . import c12
+    run_sub(ctx, c12, {'R12.1': rule})
+
+
+# ------------------------------------------------------------------------------------------------ git mode: the base side is a revision
+@extra('C17', 'R17.10', 'when the arguments turn out to be paths only, the base revision is HEAD on every arm: resolve_diff_args never sets the BASE to None, which downstream means '
+       '"working tree" (the base side of every pair would be read from disk and each notebook compared with itself)', 1)
+def base_is_never_the_working_tree(ctx, rule):
+    repo = ctx.repo
+    fid = 'nbdime.args:resolve_diff_args'
+    fn = repo.func(fid)
+    basevar = None
+    for st in walk_no_nested(fn):
+        if isinstance(st, ast.Assign) and isinstance(st.value, ast.Attribute) and st.value.attr == 'base' and isinstance(st.targets[0], ast.Name):
+            basevar = st.targets[0].id
+    if basevar is None:
+        raise AnalysisError('resolve_diff_args: local holding args.base not found')
+    gr = repo.module_assign('nbdime.gitfiles', 'GitRefWorkingTree')
+    wt_is_none = gr is not None and const_val(gr) is None
+    k = 0
+    for st in walk_no_nested(fn):
+        if not isinstance(st, ast.Assign) or isinstance(st.value, ast.Attribute):
+            continue
+        vals = []
+        for t in st.targets:
+            if isinstance(t, ast.Name) and t.id == basevar:
+                vals.append(st.value)
+            if isinstance(t, ast.Tuple) and isinstance(st.value, ast.Tuple) and len(t.elts) == len(st.value.elts):
+                vals += [v for e, v in zip(t.elts, st.value.elts) if isinstance(e, ast.Name) and e.id == basevar]
+        for val in vals:
+            k += 1
+            ok = not (isinstance(val, ast.Constant) and val.value is None and wt_is_none)
+            ctx.inst(rule, fid, repo.norm(st), ok, 'a revision' if ok else
+                     'base is set to None, the value gitfiles uses for the WORKING TREE (GitRefWorkingTree): changed_notebooks diffs HEAD against the working tree, but '
+                     '_get_diff_entry_stream opens the base side from disk too -- `nbdiff a.ipynb b.ipynb c.ipynb` (what the shell makes of `nbdiff *.ipynb`) compares every notebook with '
+                     'itself and prints nothing', st)
+    if not k:
+        raise AnalysisError('resolve_diff_args: no re-assignment of the base revision found')
+
+
+# ------------------------------------------------------------------------------------------------ git filters on the working-tree side
+@extra('C17', 'R17.11', 'applying the clean filter to a working-tree file cannot abort the listing: the call that opens the file for the filter sits inside the same '
+       '"cannot open => deleted" handler as the plain open, and a filter command that fails is treated as pass-through (git does that for non-required filters)', 2)
+def filters_cannot_abort_listing(ctx, rule):
+    repo, cg = ctx.repo, ctx.cg
+    GF = 'nbdime.gitfiles'
+    fn = repo.func(GF + ':_get_diff_entry_stream')
+    BROAD = {'OSError', 'IOError', 'EnvironmentError', 'Exception', 'BaseException'}
+    calls = [c for c in calls_in(fn, nested=False) if any(t[0] == 'func' and t[1].endswith(':apply_possible_filter') for t in cg.resolve(c.func, fn))]
+    if not calls:
+        raise AnalysisError('_get_diff_entry_stream: apply_possible_filter call not found')
+    apf = repo.func('nbdime.vcs.git.filter_integration:apply_possible_filter')
+    # does apply_possible_filter itself tolerate a missing file?
+    own_guard = False
+    for c in calls_in(apf, nested=False):
+        if dotted(c.func) in ('io.open', 'open'):
+            tr = repo.parent(repo.stmt_of(c))
+            while tr is not None and not isinstance(tr, ast.Try):
+                tr = repo.parent(tr)
+            if tr is not None and any(h.type is None or set(dotted(e) for e in (h.type.elts if isinstance(h.type, ast.Tuple) else [h.type])) & BROAD for h in tr.handlers):
+                own_guard = True
+    for c in calls:
+        tr = repo.parent(repo.stmt_of(c))
+        while tr is not None and not (isinstance(tr, ast.Try) and any(x is c for b in tr.body for x in ast.walk(b))):
+            tr = repo.parent(tr)
+        caught = tr is not None and any(h.type is None or set(dotted(e) for e in (h.type.elts if isinstance(h.type, ast.Tuple) else [h.type])) & BROAD for h in tr.handlers)
+        ok = caught or own_guard
+        ctx.inst(rule, GF + ':_get_diff_entry_stream', repo.norm(c), ok,
+                 'a file that cannot be opened for the filter is a deletion too' if ok else
+                 'apply_possible_filter opens the working-tree file itself and is called OUTSIDE the try that maps "cannot open" to the null file: with a clean filter configured '
+                 '(nbstripout) and a notebook deleted from the working tree, FileNotFoundError aborts the listing and no notebook is examined', c)
+    runs = [c for c in calls_in(apf, nested=False) if dotted(c.func) in ('check_output', 'subprocess.check_output', 'check_call') and
+            not (c.args and isinstance(c.args[0], ast.List))]
+    if not runs:
+        raise AnalysisError('apply_possible_filter: the call running the filter command was not found')
+    for c in runs:
+        tr = repo.parent(repo.stmt_of(c))
+        while tr is not None and not (isinstance(tr, ast.Try) and any(x is c for b in tr.body for x in ast.walk(b))):
+            tr = repo.parent(tr)
+        names = set()
+        if tr is not None:
+            for h in tr.handlers:
+                names |= {'BaseException'} if h.type is None else {dotted(e) for e in (h.type.elts if isinstance(h.type, ast.Tuple) else [h.type])}
+        ok = bool(names & {'CalledProcessError', 'subprocess.CalledProcessError', 'Exception', 'BaseException', 'SubprocessError'})
+        ctx.inst(rule, 'nbdime.vcs.git.filter_integration:apply_possible_filter', repo.norm(c)[:70], ok,
+                 'a failing filter command falls back to the unfiltered file' if ok else
+                 'a clean filter that is not installed on this machine (exit 127) or exits non-zero raises CalledProcessError out of changed_notebooks: nothing is examined, '
+                 'while git treats a failing non-required filter as pass-through and shows the change', c)
+
+
+@extra('C17', 'R17.12', 'a path handed to git on a command line is separated from the options by `--` (a notebook named "-x.ipynb" is otherwise parsed as an option: '
+       'git exits 129 and the failure is read as "no filter")', 1)
+def git_paths_after_double_dash(ctx, rule):
+    repo = ctx.repo
+    n = 0
+    for fid, fn in sorted(repo.functions.items()):
+        if not fid.startswith(('nbdime.vcs.git.', 'nbdime.gitfiles')):
+            continue
+        for c in calls_in(fn, nested=False):
+            if dotted(c.func) not in ('check_output', 'check_call', 'subprocess.check_output', 'subprocess.check_call', 'Popen', 'subprocess.Popen', 'call'):
+                continue
+            if not (c.args and isinstance(c.args[0], ast.List) and c.args[0].elts and const_val(c.args[0].elts[0]) == 'git'):
+                continue
+            elts = c.args[0].elts
+            var_paths = [i for i, e in enumerate(elts) if isinstance(e, ast.Name) and ('path' in e.id.lower() or 'file' in e.id.lower())]
+            if not var_paths:
+                continue
+            n += 1
+            dd = [i for i, e in enumerate(elts) if const_val(e) == '--']
+            ok = bool(dd) and dd[0] < var_paths[0]
+            ctx.inst(rule, fid, repo.norm(c)[:90], ok, '`--` precedes the path' if ok else
+                     'the path argument follows the options without `--`: a file whose name starts with "-" is taken for an option', c)
+    if not n:
+        raise AnalysisError('no git command line with a path variable found (git check-attr in interrogate_filter expected)')
+
+
+@extra('C17', 'R17.13', 'on the working-tree side git\'s verdict "deleted" decides, not the disk: what git reports about the entry (deleted_file / change_type / b_mode) reaches the '
+       'function that opens the file, and the open is guarded by it (`git rm --cached` leaves the file on disk)', 2)
+def worktree_side_honours_git_deletion(ctx, rule):
+    from ..cfg import CFG, cond_guards
+    repo, cg = ctx.repo, ctx.cg
+    GF = 'nbdime.gitfiles'
+    cn = repo.func(GF + ':changed_notebooks')
+    gs = repo.func(GF + ':_get_diff_entry_stream')
+    calls = [c for c in calls_in(cn, nested=False) if ('func', GF + ':_get_diff_entry_stream') in cg.resolve(c.func, cn)]
+    if len(calls) < 2:
+        raise AnalysisError('changed_notebooks: the two _get_diff_entry_stream calls were not found')
+    FLAGS = {'deleted_file', 'change_type', 'b_mode', 'new_file', 'a_mode'}
+    bcall = [c for c in calls if any(isinstance(x, ast.Attribute) and x.attr == 'b_path' for x in ast.walk(c))]
+    if not bcall:
+        raise AnalysisError('changed_notebooks: the b-side call was not found')
+    c = bcall[0]
+    flag_args = [(i, a) for i, a in enumerate(list(c.args) + [k.value for k in c.keywords]) if any(isinstance(x, ast.Attribute) and x.attr in FLAGS for x in ast.walk(a))]
+    ok1 = bool(flag_args)
+    ctx.inst(rule, GF + ':changed_notebooks', repo.norm(c)[:100], ok1, 'git\'s change type is passed along' if ok1 else
+             'nothing git says about the entry besides path and blob reaches the stream function: a working-tree blob is always None, so "deleted" cannot be told from "modified" '
+             'and the file on disk decides -- after `git rm --cached nb.ipynb` git reports D, nbdime shows the file as (un)modified', c)
+    # the open on the working-tree arm is guarded by a parameter other than path/blob/ref/repo_dir
+    ps = [a.arg for a in gs.args.args]
+    extra_params = set(ps[4:]) | {a.arg for a in gs.args.kwonlyargs}
+    g = CFG(gs)
+    opens = [o for o in calls_in(gs, nested=False) if dotted(o.func) in ('io.open', 'open')]
+    for o in opens:
+        st = repo.stmt_of(o)
+        guards = cond_guards(g, st)
+        ok2 = any(any(isinstance(x, ast.Name) and x.id in extra_params for x in ast.walk(t)) for t, pol in guards)
+        ctx.inst(rule, GF + ':_get_diff_entry_stream', repo.norm(o)[:80], ok2 or not ok1 and False, 'reached only when git did not report the entry as deleted' if ok2 else
+                 'the working-tree file is opened whatever git reported for the entry', o)
